@@ -268,6 +268,9 @@ def run(prog: Program, res: Result) -> None:
             d = V_.delegation_of(vf.methods[meth], meth, takes)
             if d.ok:
                 good(f"{name}.{meth} delegates element-wise to _children", f"{name}.{meth}")
+            elif d.unknown:
+                res.errors.append(f"{vf.methods[meth].loc()} {name}.{meth}: the delegation to the children has a shape that is not "
+                                  f"understood ({d.why}) (undecided)")
             else:
                 bad("R4-delegation", vf.methods[meth], name, f"{name}.{meth} does not delegate to `.{meth}` of each child on its own coordinate: {d.why}", meth)
         g = _ret(vf.methods["get"])
